@@ -193,7 +193,7 @@ func main() {
 		replay(a.Replay)
 		return
 	}
-	out := vlib.NewOut(a, progs.Header("Run_C25"), "lcase", 60)
+	out := vlib.NewOut(a, progs.Header("Run_C25"), "c25case", 60)
 	rng := vlib.NewRand(a.Seed)
 	n := 300
 	if a.Thorough() {
@@ -208,7 +208,7 @@ func main() {
 		c := h.w.Run(h.ops, h.omit, true)
 		fs, interesting := check(h, c)
 		id := out.NextID()
-		out.Add(h.w.CoqLCase(id, c), c, interesting)
+		out.Add("(C25L "+h.w.CoqLCase(id, c)+")", c, interesting)
 		for _, op := range c.Ops {
 			switch {
 			case op.K == "load" && op.Err == "":
@@ -237,7 +237,44 @@ func main() {
 			out.Violate(f.class, f.what, map[string]any{"kind": "history", "case": c})
 		}
 	}
-	out.Flush("load/reload/unload/line/GC histories (7-14 steps) over 1-3 programs; every expvar delta is compared after every step; non-trivial when the history contains at least two of: compile error, refused registration, unload, runtime error", false)
+	// ---- end to end: real tailer + real loader ----
+	nt := 40
+	if a.Thorough() {
+		nt = 600
+	}
+	for i := 0; i < nt; i++ {
+		tc := genTail(rng.Fork())
+		for _, e := range tc.Events {
+			// quote once, for JSON and replay
+			_ = e
+		}
+		for j := range tc.Events {
+			tc.Events[j].Text = vlib.Q(tc.Events[j].Text)
+		}
+		fs := runTail(tc)
+		id := out.NextID()
+		removed, partial := false, false
+		for _, e := range tc.Events {
+			if e.K == "remove" {
+				removed = true
+			}
+			if e.K == "append" && !strings.HasSuffix(vlib.UnQ(e.Text), "\n") {
+				partial = true
+			}
+			out.Count("tail/" + e.K)
+		}
+		out.Add(coqTCase(id, tc), tc, removed && partial)
+		out.Count("tail/histories")
+		seen := map[string]bool{}
+		for _, f := range fs {
+			if seen[f.class] {
+				continue
+			}
+			seen[f.class] = true
+			out.Violate(f.class, f.what, map[string]any{"kind": "tail", "case": tc})
+		}
+	}
+	out.Flush("load/reload/unload/line/GC histories (7-14 steps) over 1-3 programs; every expvar delta is compared after every step; non-trivial when the history contains at least two of: compile error, refused registration, unload, runtime error; plus end-to-end histories of a real mtail.Server over 1-3 log files (create with content to be skipped, append with empty lines, CRLF and unterminated tails, remove) reconciling log_count, log_lines_total and lines_total after every event, non-trivial when a file is removed and some append ends without a newline", false)
 }
 
 // corpus: b.mtail refused at its second metric must count as a load error.
@@ -255,6 +292,35 @@ func corpus() hist {
 }
 
 func replay(path string) {
+	var k struct {
+		Class string `json:"class"`
+		Case  struct {
+			Kind string `json:"kind"`
+			Case TCase  `json:"case"`
+		} `json:"case"`
+	}
+	vlib.ReadJSON(path, &k)
+	if k.Case.Kind == "tail" {
+		tc := k.Case.Case
+		tc.Obs = nil
+		fmt.Printf("replay %s: end-to-end tail history, %d events\n", path, len(tc.Events))
+		for i, e := range tc.Events {
+			fmt.Printf("  step %d: %s %s %s\n", i+1, e.K, e.F, e.Text)
+		}
+		fail := false
+		for _, f := range runTail(&tc) {
+			fmt.Printf("%s: %s\n", f.class, f.what)
+			if f.class == k.Class {
+				fail = true
+			}
+		}
+		if fail {
+			fmt.Println("FAILS: " + k.Class)
+			os.Exit(1)
+		}
+		fmt.Println("holds")
+		return
+	}
 	var v struct {
 		Class string `json:"class"`
 		Case  struct {
